@@ -3,7 +3,7 @@
 mkdir -p /tmp/bm-ev /tmp/bm-out
 # the machinery runs from a snapshot of /verif's working tree, so that editing /verif while the matrix runs cannot mix versions
 SNAP=/tmp/bm-verif-$$; rm -rf $SNAP; mkdir -p $SNAP; rsync -a --exclude .git --exclude evidence --exclude replay /verif/ $SNAP/; export SNAP
-ls /verif/benign | xargs -P ${PAR:-3} -I{} sh -c '
+ls /verif/benign | grep -E "${1:-.}" | xargs -P ${PAR:-3} -I{} sh -c '
   name={}; ids=$(/venv/bin/python -c "import json;print(json.load(open(\"/verif/benign/$name/meta.json\"))[\"checks\"])")
   wt=/tmp/bm-$name
   git -C /repo worktree remove --force $wt 2>/dev/null
